@@ -248,7 +248,7 @@ func (s *stdSvc) gRelayRequest(rt *rapid.T, o relayOpts) relayCase {
 	if rapid.IntRange(0, 4).Draw(rt, "totag") == 0 {
 		toTag = gTok(rt, "totagv")
 	}
-	toHostStatic := []string{"static-udp.test", "static-tcp.test", "static-noport.test", "x.wudp.test", "y.z.wtcp.test", "also-udp.test"}
+	toHostStatic := []string{"static-udp.test", "static-tcp.test", "static-noport.test", "x.wudp.test", "y.z.wtcp.test", "also-udp.test", "q.wmid.test", "r.wlast.test", "tail-lit.test", "k.wtcp2.test", "plain-w.test"}
 	switch rc.Path {
 	case "static":
 		p.To = gNameAddr(rt, "to", naOpts{allowBare: true, maxParams: 3, tag: &toTag, uri: uriOpts{hostFn: func(rt *rapid.T, l string) string { return rapid.SampledFrom(toHostStatic).Draw(rt, l) }}})
